@@ -575,7 +575,7 @@ Section IdentTheorems.
 
   Lemma need_quote_false s : need_quote_ident s = false -> is_keyword s = false /\ ident_shaped s.
   Proof.
-    unfold need_quote_ident, ident_shaped. intros H. apply orb_false_iff in H as [K H]. split; [exact K|].
+    unfold need_quote_ident, ident_shaped. intros H. apply orb_false_iff in H as [K H]. apply orb_false_iff in K as [K _]. split; [exact K|].
     destruct s as [|c s']; [discriminate|]. apply orb_false_iff in H as [A B].
     apply negb_false_iff in A, B. auto.
   Qed.
